@@ -7,9 +7,11 @@ package mailbox
 // including the clear-text version bytes.
 
 import (
+	"context"
 	"fmt"
 	"time"
 
+	"github.com/btcsuite/btcd/btcec/v2"
 	"simrt"
 )
 
@@ -67,6 +69,11 @@ func init() {
 		},
 		Run: c04BitFlips, MaxOps: 1 << 20, Horizon: time.Hour,
 		Doc: "every single-bit flip of every byte of every handshake act (small auth payload), for v2 XX and KK (thorough: also v0 and v1 XX)",
+	})
+	simrt.Register(&simrt.Scenario{
+		Prop: "C04", Name: "repeat-handshakes", Count: tiered(400, 160000),
+		Run: c04Repeat, MaxOps: 1 << 20, Horizon: time.Hour,
+		Doc: "2-5 consecutive handshakes on the same long-lived ConnData objects (as a session does): XX first, KK afterwards when version 2 paired them; the responder's auth payload changes between handshakes (non-empty, empty, nil, other sizes); after each one the agreement oracle, and the initiator's stored auth data and onAuthData callback must reflect this handshake's payload",
 	})
 	simrt.Register(&simrt.Scenario{
 		Prop: "C04", Name: "rewrites-random", Count: tiered(3000, 320000),
@@ -172,13 +179,20 @@ func c04VersionBytes(rc *simrt.RunCtx) {
 	sp := c04Spec(pr, cfg, auth)
 	ca, cb := newDuplex()
 	// initiator -> responder: segment 0 is act 1, segment 1 is act 3
+	modified := ""
+	mark := func(act string, s []byte, v byte) {
+		if s[0] != v {
+			modified += act
+		}
+		s[0] = v
+	}
 	ca.out.adv = func(i int, seg []byte) [][]byte {
 		s := append([]byte(nil), seg...)
 		if len(s) > 0 {
 			if i == 0 {
-				s[0] = v1
+				mark("1", s, v1)
 			} else if i == 1 {
-				s[0] = v3
+				mark("3", s, v3)
 			}
 		}
 		return [][]byte{s}
@@ -186,7 +200,7 @@ func c04VersionBytes(rc *simrt.RunCtx) {
 	cb.out.adv = func(i int, seg []byte) [][]byte {
 		s := append([]byte(nil), seg...)
 		if i == 0 && len(s) > 0 {
-			s[0] = v2
+			mark("2", s, v2)
 		}
 		return [][]byte{s}
 	}
@@ -194,7 +208,17 @@ func c04VersionBytes(rc *simrt.RunCtx) {
 	waitParties(cli, srv)
 	what := fmt.Sprintf("version bytes rewritten to act1=%d act2=%d act3=%d, kk=%v versions c[%d,%d] s[%d,%d]", v1, v2, v3, cfg.kk, cfg.cMin, cfg.cMax, cfg.sMin, cfg.sMax)
 	rc.Sample("%s: initiator %s, responder %s", what, describeErr(cli.err), describeErr(srv.err))
-	c04Agree(rc, what, "version-bytes", sp, cli, srv)
+	// which acts the man in the middle really changed (acts are numbered in
+	// the order 1, 3 on the initiator's direction and 2 on the responder's)
+	acts := ""
+	for _, a := range []string{"1", "2", "3"} {
+		for _, c := range modified {
+			if string(c) == a {
+				acts += a
+			}
+		}
+	}
+	c04Agree(rc, what+" (really changed: acts "+acts+")", "version-bytes[acts "+acts+"]", sp, cli, srv)
 	rc.Progress()
 	rc.Fault(fmt.Sprintf("vb-%d-%d", (rc.Idx()/64)%len(cfgs), combo))
 }
@@ -305,4 +329,76 @@ func c04Random(rc *simrt.RunCtx) {
 	rc.Sample("%s: initiator %s, responder %s", what, describeErr(cli.err), describeErr(srv.err))
 	c04Agree(rc, what, "rewrite", sp, cli, srv)
 	rc.Progress()
+}
+
+func c04Repeat(rc *simrt.RunCtx) {
+	pr := newPrng(rc.Seed())
+	installEphemeralGen(pr)
+	maxV := []byte{2, 2, 1, 0}[rc.Pick(4, "knob.maxv")]
+	ck, sk := pr.ecdh(), pr.ecdh()
+	pass := pr.bytes(14)
+	var cliAuth [][]byte
+	var cliKeys, srvKeys int
+	cdata := NewConnData(ck, nil, pass, nil, func(*btcec.PublicKey) error { cliKeys++; return nil },
+		func(d []byte) error { cliAuth = append(cliAuth, append([]byte(nil), d...)); return nil })
+	sdata := NewConnData(sk, nil, pass, nil, func(*btcec.PublicKey) error { srvKeys++; return nil }, nil)
+	ccreds := NewNoiseGrpcConn(cdata, WithMaxHandshakeVersion(maxV))
+	screds := NewNoiseGrpcConn(sdata, WithMaxHandshakeVersion(maxV))
+	rounds := 2 + rc.Pick(4, "wl.rounds")
+	var hist []string
+	for i := 0; i < rounds && !rc.Failed(); i++ {
+		var auth []byte
+		switch rc.Pick(5, "wl.auth") {
+		case 0:
+			auth = nil
+		case 1:
+			auth = []byte{}
+		case 2:
+			auth = marker(uint64(i)+rc.Seed(), 1+rc.Pick(40, "wl.authlen"))
+		default:
+			auth = marker(uint64(i)+rc.Seed(), 50+rc.Pick(400, "wl.authlen"))
+		}
+		// the server side sets what it will send this time
+		sdata.mu.Lock()
+		sdata.authData = auth
+		sdata.mu.Unlock()
+		pattern := cdata.HandshakePattern().Name
+		hist = append(hist, fmt.Sprintf("%s/%d", pattern, len(auth)))
+		ca, cb := newDuplex()
+		before := len(cliAuth)
+		type res struct{ err error }
+		cd, sd := make(chan res, 1), make(chan res, 1)
+		go func() { _, _, err := ccreds.ClientHandshake(context.Background(), "", ca); cd <- res{err} }()
+		go func() { _, _, err := screds.ServerHandshake(cb); sd <- res{err} }()
+		cr, sr := <-cd, <-sd
+		if cr.err != nil || sr.err != nil {
+			rc.Violate("c04.repeat", "honest-handshake-failed", "handshake %d (%s) between the same two honest parties failed: initiator %v, responder %v; history %v", i, pattern, cr.err, sr.err, hist)
+			return
+		}
+		cm, sm := ccreds.noise, screds.noise
+		what := fmt.Sprintf("handshake %d of a session (history %v)", i, hist)
+		switch {
+		case cm.sendCipher.secretKey != sm.recvCipher.secretKey || cm.recvCipher.secretKey != sm.sendCipher.secretKey:
+			rc.Violate("c04.agree", "repeat/keys", "%s: traffic keys are not complementary", what)
+		case cm.version != sm.version:
+			rc.Violate("c04.agree", "repeat/version", "%s: versions %d / %d", what, cm.version, sm.version)
+		case !eqBytes(cdata.AuthData(), auth):
+			rc.Violate("c04.agree", "repeat/auth-payload", "%s: the responder sent %d auth bytes this time, the initiator's ConnData holds %d bytes (first difference at %d)", what, len(auth), len(cdata.AuthData()), firstDiff(cdata.AuthData(), auth))
+		case len(cliAuth) != before+1 || !eqBytes(cliAuth[len(cliAuth)-1], auth):
+			rc.Violate("c04.agree", "repeat/auth-callback", "%s: onAuthData was called %d time(s) for this handshake and its last argument has %d bytes, the responder sent %d", what, len(cliAuth)-before, len(lastBytes(cliAuth)), len(auth))
+		case (cliKeys > 0) != (srvKeys > 0):
+			rc.Violate("c04.agree", "repeat/publication", "%s: remote key published on one side only (%d / %d)", what, cliKeys, srvKeys)
+		}
+	}
+	rc.Sample("maxVersion=%d session of %d handshakes: %v", maxV, rounds, hist)
+	rc.Knob("case", fmt.Sprint(maxV, hist))
+	rc.Progress()
+	rc.Fault("repeat-handshakes")
+}
+
+func lastBytes(b [][]byte) []byte {
+	if len(b) == 0 {
+		return nil
+	}
+	return b[len(b)-1]
 }
